@@ -322,9 +322,11 @@ def c17(ctx, rep):
 
 @prop("C18", "Decides the structural clauses of C18: (T-DOT(cfg)) node set, instruction rows and edge set of the cfg export equal the "
              "global graph of an independent reference construction on 25 program shape classes; (T-DOT(subroutine-cfg)) per "
-             "subroutine nodes, edges and one call box per call site; (T-DOT(path)) the path DOT marks exactly the path's blocks; "
+             "subroutine nodes, edges and one call box per call site; (T-DOT(subroutine-cfg files)) one file per subroutine also when labels differ "
+             "only in punctuation or case; (T-DOT(path)) the path DOT marks exactly the path's blocks; "
              "(T-DOT(context)) annotations are the blocks' own contexts; (T-ENV) JSON envelope: success iff no error, count = number "
-             "of paths; (T-RENDER) filter removes exactly the matching paths; (T-CALLGRAPH). "
+             "of paths, and (T-MAIN) the error side of the envelope reached through main() for a contract that cannot be loaded; (T-RENDER) filter "
+             "removes exactly the matching paths, a block that occurs twice in a path is listed twice; (T-CALLGRAPH). "
              "Not decided: textual well-formedness of DOT/JSON for all inputs.")
 def c18(ctx, rep):
     _r(output_rules.rule_dot_full, ctx, rep)
@@ -351,7 +353,8 @@ from .rules import effects  # noqa: E402
              "predicate and report-condition closures a detector's detect() hands to the path search give the same verdict per context / "
              "path whatever was asked before (two contracts whose blocks share ids, both orders, repeated); thorough tier: (T-HISTORY(runs)) "
              "whole runs with the real analyses give the same contexts and JSON results after another contract, with the detectors "
-             "registered in the opposite order, and when run twice; (R-DEFAULT) no mutable default arguments. "
+             "registered in the opposite order, and when run twice; (R-DEFAULT) no mutable default arguments; (E-PURE(export)) the rendering "
+             "functions change no container of the objects they render. "
              "(T-HISTORY(contracts)) every detector reports for each of two contracts loaded together what it reports for it alone; (T-EQN) "
              "the live-in equations give the same answer whatever was asked before and in whatever order callees are listed; "
              "(T-ORDER(fixpoint)) the analyses give the same contexts when the function's block list and subroutine table are listed in the "
@@ -377,7 +380,7 @@ from .rules import spelling  # noqa: E402
 
 
 @prop("C15", "Decides the clauses of C15 visible in the source: (T-SPELL(int)) decimal/hex/octal spellings parse to the same value in both "
-             "integer parsers and every opcode with integer immediates; (T-SPELL(named)) named and numeric transaction types / completion "
+             "integer parsers and in every integer immediate of every opcode of the specification that has one (8 / 0x8 / 010); (T-SPELL(named)) named and numeric transaction types / completion "
              "actions give the same table cell; (T-SPELL(intc)) int / pushint / intc / intc_k give the same cell, unresolvable intc gives no "
              "information, constant block resolved only when unique and in the entry block; (R-DOOR) constants are recognised only through "
              "is_int_push_ins / is_byte_push_ins; (T-REWRITE) label renaming, comments, blank lines, indentation leave the graph of 30 "
